@@ -24,7 +24,7 @@ func init() {
 func c05Histories(tier string, seed uint64, res *Result) error {
 	{
 		if c05N == 0 {
-			res.Rule = "histories of requests on real MBAP clients (tcp, tcp+tls) over scripted connections; per request the peer answers on time, late (during a later request), twice, never, or with foreign-protocol frames, in any order around the own reply; every reply carries the index of the request it answers; a returned value must carry the index of the call that returned it; each exchange is also compared with the Lean model; distinct = (delivery class of own reply, number/kind of foreign frames present, outcome)"
+			res.Rule = "histories of requests on real MBAP clients (tcp, tcp+tls) over scripted connections; per request the peer answers on time, late (during a later request), twice, never, with foreign-protocol frames, or stops draining so that the write is cut by the deadline and answers that id later, in any order around the own reply; every reply carries the index of the request it answers; a returned value must carry the index of the call that returned it; each exchange is also compared with the Lean model; distinct = (delivery class of own reply, number/kind of foreign frames present, outcome)"
 		}
 		workers := 16
 		n := scale(tier, 400, 6000)
@@ -52,6 +52,9 @@ func c05Histories(tier string, seed uint64, res *Result) error {
 				}
 				var late []lateFrame
 				var local [][2]string
+				var prevTxn uint16
+				var havePrev bool
+				var prevMode string
 				for i := 0; i < total; i++ {
 					op := &Op{Name: "ReadRegisters", Addr: uint16(i % 1000), Qty: 2}
 					mode := "ontime"
@@ -64,6 +67,10 @@ func c05Histories(tier string, seed uint64, res *Result) error {
 						mode = "twice"
 					case 4:
 						mode = "foreign-proto-then-own"
+					case 6:
+						if r.Chance(1, 2) {
+							mode = "write-cut"
+						}
 					case 5:
 						if r.Chance(1, 3) {
 							mode = "flood-then-own"
@@ -78,8 +85,17 @@ func c05Histories(tier string, seed uint64, res *Result) error {
 						}
 					}
 					nStale := 0
+					if mode == "write-cut" {
+						s.conn.WriteCut = 7
+					}
 					line, impl, _ := s.exchange(op, "timeout", true, func(w wireReq) [][]byte {
 						own := mbapFrame(w.txn, 0, w.unit, w.fc, taggedReply(w, uint16(i)))
+						if havePrev && w.txn == prevTxn {
+							res.Add(Finding{Kind: "property", Check: "distinct-ids", Line: fmt.Sprintf("request #%d after a request whose outcome was %s", i, prevMode),
+								Impl: fmt.Sprintf("both carried transaction id %d", w.txn), Expect: "consecutive requests use distinct transaction ids",
+								Note: "a late reply to the earlier request would satisfy the later one"})
+						}
+						prevTxn, havePrev, prevMode = w.txn, true, mode
 						var stream []byte
 						// stale frames due now, before or after the own reply
 						var before, after [][]byte
@@ -108,6 +124,9 @@ func c05Histories(tier string, seed uint64, res *Result) error {
 							late = append(late, lateFrame{i + 1 + r.Intn(5), own})
 						case "late":
 							late = append(late, lateFrame{i + 1 + r.Intn(6), own})
+						case "write-cut":
+							// the write reports a timeout after the header; the peer answers that id later
+							late = append(late, lateFrame{i + 1 + r.Intn(3), own})
 						case "late-wrap":
 							late = append(late, lateFrame{i + 65535 + (i % 2), own}) // 65535 (must be skipped) or 65536 (same id again)
 						case "flood-then-own", "flood-only":
@@ -131,6 +150,26 @@ func c05Histories(tier string, seed uint64, res *Result) error {
 						}
 						return randomChunks(r, stream)
 					})
+					if mode == "write-cut" {
+						// not a model step (the model's exchange has no failing write); the outcome must be an error
+						if isOK(impl) {
+							res.Add(Finding{Kind: "property", Check: "history", Line: line, Impl: impl, Expect: "an error",
+								Note: "the write was cut short by the deadline but the call reported success"})
+						}
+						res.Eval("write-cut/"+field(impl, "r"), true, line+" => "+impl)
+						res.Count("own:" + mode)
+						if s.kind == "tcp+tls" {
+							// documented: the tls adapter closes the connection after a write timeout (crypto/tls
+							// state is unusable); every later call fails until Close/Open. Continue on a fresh client.
+							if s2, err := newSession("tcp+tls"); err == nil {
+								s, late, havePrev = s2, nil, false
+							} else {
+								res.Note(err.Error())
+								break
+							}
+						}
+						continue
+					}
 					if !wrap || i < 200 || i > 65400 {
 						local = append(local, [2]string{line, impl})
 					}
